@@ -833,5 +833,9 @@ impl MemBalancerTrigger {
                 s.collection_time,
             ],
         )
+impl<VM: VMBinding> GCTrigger<VM> {
+    /// Verification hook: the value of `request_flag`.
+    pub(crate) fn verif_is_requested(&self) -> bool {
+        self.request_flag.load(Ordering::Relaxed)
     }
 }
